@@ -198,3 +198,44 @@ pub fn c04_history_decay() {
     kani::cover!(v > 64);
     std::mem::forget(h);
 }
+
+/// nodes-per-second statistic: any node count, any elapsed time (zero included) - no panic
+#[kani::proof]
+pub fn c04_nodes_per_second() {
+    let nodes: u64 = kani::any();
+    let secs: u64 = kani::any();
+    let nanos: u32 = kani::any();
+    kani::assume(nanos < 1_000_000_000);
+    #[cfg(test)] println!("REPLAY-CASE {{\"nodes\":{},\"secs\":{},\"nanos\":{}}}", nodes, secs, nanos);
+    let nps = crate::engine::util::metrics::nodes_per_second(nodes, std::time::Duration::new(secs, nanos));
+    // (f64 rounding may exceed `nodes` by an ulp for counts above 2^53; only crash-freedom is the subject)
+    if secs >= 1 && nodes < (1u64 << 52) { assert!(nps <= nodes); }
+    kani::cover!(secs == 0 && nanos == 0);
+}
+
+/// the pruning-margin expressions of negamax.rs, restated with the REAL operators and the REAL constants, for every score a
+/// node can hold and every depth at which they are evaluated: no i16 overflow
+///   eval - REVERSE_FUTILITY_PRUNE_MARGIN_PER_PLY * depth   (depth <= REVERSE_FUTILITY_PRUNE_DEPTH)
+///   eval + FUTILITY_PRUNE_MAX_MOVE_VALUE
+///   beta - Eval(1), -beta + Eval(1), -alpha - Eval(1)         (window bounds in [MIN, MAX])
+#[kani::proof]
+pub fn c04_pruning_margins() {
+    let e: i16 = kani::any();
+    let depth: u8 = kani::any();
+    kani::assume(e >= -MATE && e <= MATE);
+    kani::assume(depth <= sa::REVERSE_FUTILITY_PRUNE_DEPTH);
+    #[cfg(test)] println!("REPLAY-CASE {{\"eval\":{},\"depth\":{}}}", e, depth);
+    let a = Eval(e) - sa::REVERSE_FUTILITY_PRUNE_MARGIN_PER_PLY * i16::from(depth);
+    let b = Eval(e) + sa::FUTILITY_PRUNE_MAX_MOVE_VALUE;
+    assert!(a.0 as i32 == e as i32 - 150 * depth as i32 || sa::REVERSE_FUTILITY_PRUNE_MARGIN_PER_PLY.0 != 150);
+    assert!(b.0 > e);
+    // null-window bounds. At a non-root node beta = -alpha(parent) with alpha(parent) <= MAX-1 (alpha < beta <= MAX), so beta >= -(MAX-1);
+    // alpha = -beta(parent) >= -MAX, or MIN at the root (negation saturates); alpha < beta gives alpha <= MAX-1.
+    let beta: i16 = kani::any();
+    let alpha: i16 = kani::any();
+    kani::assume(beta >= -(i16::MAX - 1) && alpha < i16::MAX);
+    let _ = Eval(beta) - Eval(1);
+    let _ = -Eval(beta) + Eval(1);
+    let _ = -Eval(alpha) - Eval(1);
+    kani::cover!(depth == 4 && e == -MATE);
+}
